@@ -86,14 +86,28 @@ func ComposeDot(w io.Writer, g *Graph, a *DotAttributes, c *DotConfig) {
 		builder.addNode(n, nodeIDMap[n], maxFlat)
 		hasNodelets[n] = builder.addNodelets(n, nodeIDMap[n])
 
-		// Collect all edges, in node order so that edges the ordering below
-		// cannot tell apart (equal weights and names, as in a call tree) are
-		// always emitted in the same order.
-		edges = append(edges, n.Out.Sort()...)
+		// Collect all edges.
+		for _, e := range n.Out {
+			edges = append(edges, e)
+		}
 	}
 
 	// Add edges to DOT builder. Sort edges by frequency as a hint to the graph layout engine.
-	sort.Stable(edges)
+	// Edges the ordering cannot tell apart (equal weights and names, as in a
+	// call tree) are ordered by the numbers of their nodes, so that the
+	// output does not depend on map iteration order.
+	sort.Slice(edges, func(i, j int) bool {
+		if edges.Less(i, j) {
+			return true
+		}
+		if edges.Less(j, i) {
+			return false
+		}
+		if si, sj := nodeIDMap[edges[i].Src], nodeIDMap[edges[j].Src]; si != sj {
+			return si < sj
+		}
+		return nodeIDMap[edges[i].Dest] < nodeIDMap[edges[j].Dest]
+	})
 	for _, e := range edges {
 		builder.addEdge(e, nodeIDMap[e.Src], nodeIDMap[e.Dest], hasNodelets[e.Src])
 	}
